@@ -81,13 +81,10 @@ def coq_make(targets, timeout=1800):
         rc, out = sh("ulimit -s unlimited 2>/dev/null; timeout %d make -k -j%d %s" % (timeout, NPROC, " ".join(targets)), cwd=COQ, timeout=timeout + 30)
     res = {}
     for t in targets:
-        vo = os.path.join(COQ, t)
-        src = vo[:-1]
-        res[t] = os.path.exists(vo) and os.path.exists(src) and os.path.getmtime(vo) >= os.path.getmtime(src) - 1e-6
-    # a target whose compilation failed leaves no fresh .vo; also consult the log for "Error" on that file
-    for t in targets:
-        if re.search(r"(?m)^.*%s.*\bError\b" % re.escape(t[:-1]), out) or ("*** [%s]" % t) in out or ("[%s] Error" % t) in out:
-            res[t] = False
+        # up to date with respect to ALL its dependencies? (`make -q`: 0 = nothing to do; a target whose dependency failed
+        # to build keeps its old .vo and must not be mistaken for a fresh one)
+        rc_q, _ = sh("make -q %s" % t, cwd=COQ, timeout=300)
+        res[t] = (rc_q == 0) and os.path.exists(os.path.join(COQ, t))
     return res, out
 
 
